@@ -82,6 +82,37 @@ def rand_int(rng, bits):
     return max(lo, min(hi, rng.randrange(-(1 << sh), 1 << sh)))
 
 
+_HEIGHTS = {}
+
+
+def heights(G):
+    """per node: the least nesting a value of that node needs (arrays / maps can be empty; a union takes its best branch)"""
+    key = id(G)
+    if key in _HEIGHTS and _HEIGHTS[key][0] is G:
+        return _HEIGHTS[key][1]
+    INF = 10 ** 9
+    h = [INF] * len(G)
+    changed = True
+    while changed:
+        changed = False
+        for i, n in enumerate(G):
+            e = eff(n)
+            if e in ("array", "map"):
+                v = 0
+            elif e == "record":
+                v = 1 + max([h[f["t"] - 1] for f in n["fields"]], default=0)
+            elif e == "union":
+                v = 1 + min(h[k - 1] for k in n["variants"])
+            else:
+                v = 0
+            v = min(v, INF)
+            if v < h[i]:
+                h[i] = v
+                changed = True
+    _HEIGHTS[key] = (G, h)
+    return h
+
+
 def random_value(rng, G, key, depth, size=3):
     """random conforming value of node `key` (1-based) in the exchange format"""
     n = G[key - 1]
@@ -135,10 +166,15 @@ def random_value(rng, G, key, depth, size=3):
     if e == "record":
         return {"t": "rec", "es": [random_value(rng, G, f["t"], depth - 1, size) for f in n["fields"]]}
     if e == "union":
-        cands = list(range(len(n["variants"])))
+        h0 = heights(G)
+        cands = [i for i in range(len(n["variants"])) if h0[n["variants"][i] - 1] < 10 ** 9]
+        if not cands:
+            raise ValueError("uninhabited type: no finite value conforms")
         if depth <= 0:
-            flat = [i for i in cands if eff(G[n["variants"][i] - 1]) not in ("array", "map", "record", "union")]
-            cands = flat or cands
+            # out of depth budget: take a branch that terminates soonest (recursive schemas whose unions have no leaf branch)
+            h = heights(G)
+            best = min(h[n["variants"][i] - 1] for i in cands)
+            cands = [i for i in cands if h[n["variants"][i] - 1] == best]
         b = rng.choice(cands)
         return {"t": "un", "b": b, "x": random_value(rng, G, n["variants"][b], depth - 1, size)}
     raise ValueError(e)
